@@ -74,6 +74,11 @@ def restoreStacks' : List (Nat × String) := [
 /-- model: `handleThrowLoop / restoreFrame / handleThrow` -/
 def handleThrow : List (Nat × String) := [
   (0, "ex := vm.exceptionFromValue(arg)"),
+  (0, "if ex != nil"),
+  (1, "defer func()"),
+  (2, "init x := recover()"),
+  (2, "if x != nil"),
+  (3, "ret = vm.handleThrow(x)"),
   (0, "for len(vm.tryStack) > 0"),
   (1, "tf := &vm.tryStack[len(vm.tryStack)-1]"),
   (1, "if tf.catchPos == -1 && tf.finallyPos == -1 || ex == nil && tf.catchPos != tryPanicMarker"),
